@@ -72,6 +72,10 @@ func parseUrlPath(pathStr string, m meta.Definition) ([]*Path, error) {
 			if !isList {
 				return nil, fmt.Errorf("%w. %s is not a list and cannot have a key", fc.BadRequestError, ident)
 			}
+			if len(keyStrs) < len(list.KeyMeta()) {
+				// the missing components would be nil values that the nodes then dereference
+				return nil, fmt.Errorf("%w. %s needs %d key components, got %d", fc.BadRequestError, ident, len(list.KeyMeta()), len(keyStrs))
+			}
 			if seg.Key, err = NewValuesByString(list.KeyMeta(), keyStrs...); err != nil {
 				return nil, err
 			}
